@@ -57,7 +57,21 @@
     strided start states (the chain runs in the dtype of the weights; the caller's tensor is written back), one run with
     k = 33, sample(k, n), law test per start state.
 (e') histories also REPLACE the amplitude network of the live state through the public `rbm_am` setter (new network with
-    another number of hidden / auxiliary units): probability, conditionals, gibbs_steps and state.sample must follow."""
+    another number of hidden / auxiliary units): probability, conditionals, gibbs_steps and state.sample must follow.
+(k) THE RESULT OF AN overwrite=False CALL IS THE CALLER'S OWN (seed round 5: a `k == 0` fast path returned
+    `initial_state.to(weights)`, i.e. the caller's tensor itself; a single call looks right).  EVERY overwrite=False run of
+    part (c) -- every k including 0, every layout / dtype, sample / sample(k, n, initial_state=) / gibbs_steps -- is followed by
+    the two ordinary uses of what was returned: the returned tensor is changed in place, and the chain is continued from it
+    with overwrite=True; after each, the caller's start state (for a view: the whole of the caller's larger tensor) must
+    still equal the copy taken before the first call.  The same for the samples Observable.sample / Observable.statistics
+    hand to the observable (k = 0 / burn_in = 0 included).  The result of an earlier overwrite=False call must keep its
+    values when the sampler is called again.  FIXED CASES FIRST (zero_step_first, layout_runs(k_fixed=0)): k = 0 on dense
+    float64 start states (2-D, one chain, 1-D, 3-D) through the three entry points, then every layout and dtype with k = 0,
+    overwrite off and on; float32 networks with float32 starts; after every history step.
+(m) ARCHITECTURE SWEEP, fixed block of the quick tier too: every (nv, nh) in 1..4 x 1..4 for the positive and the complex
+    state and every (nv, nh, na) in 1..4 x 1..4 x 1..3 for the density matrix, all parameter tensors of both networks drawn
+    at random: conditionals + single-layer samplers, reported distribution / detailed balance / invariance, a k = 0 call
+    without overwriting (followed by (k)) and a k >= 1 call with overwriting."""
 import itertools, math, time
 import numpy as np
 import gen
@@ -73,6 +87,10 @@ RULE = ("state types positive / complex / density; shapes nv,nh in 1..4, na in 1
         "tests; then three slowly mixing nets with chains of k = 17, 31, 32, 33, 64, 100 and one k in 128..1500 (content tie "
         "+ law tests against matrix_power(kernel, k)); then three single-precision nets (module=<RBM>.float()); histories: "
         "six kinds of update of the live object incl. replacing the network through the rbm_am setter; "
+        "then ALL 16 binary shapes x {positive, complex} and ALL 48 purification shapes once each (conditionals, kernel, a k = 0 "
+        "and a k >= 1 call); every overwrite=False call (any k, k = 0 in fixed cases through every entry point / layout / dtype) "
+        "is followed by an in-place change of the returned tensor and by a continuation of the chain from it with "
+        "overwrite=True, with the caller's start state re-read after each; "
         "a case is (state type, shape, parameter draw); "
         "non-trivial := all biases non-zero and the kernel has no row equal to another (the chain depends on its state)")
 ASSUMPTIONS = ["torch.bernoulli(p) returns independent 0/1 draws with P(1) = p per entry (trusted; the thorough tier adds a "
@@ -96,6 +114,12 @@ ASSUMPTIONS = ["torch.bernoulli(p) returns independent 0/1 draws with P(1) = p p
                "unchanged tree): conditional methods called with float64 tensors on a float32 network, DensityMatrix.rho of a float32 "
                "network (both raise a dtype error)",
                "the single-layer samplers are located by their documented names; a missing name is counted, not reported",
+               "IN SCOPE (seed round 5, C05e): a result of an overwrite=False call that shares memory with the caller's start state "
+               "(k = 0 fast path). 'The caller's start state is left untouched unless overwriting was requested' is read as a statement "
+               "about the history 'call, then use the result' ('chains continued across calls'): overwriting requested for the RETURNED "
+               "tensor in a later call, or an in-place edit of it, is not a request to overwrite the original start state. Likewise samples "
+               "returned earlier keep their values when the sampler is called again. A returned tensor that cannot be written in place "
+               "(add_ raises) is counted, not reported: the statement does not promise writable results",
                "replacing the amplitude network of a live state through the public property setter `state.rbm_am = <RBM>` is a "
                "history inside the quantifier ('histories', 'chains continued across calls'); the new network has the same num_visible",
                "two start-state forms that failed on the unchanged tree before fix 2c1500e are still probed but only recorded (evidence extra "
@@ -503,7 +527,8 @@ def impl_kernel(net):
     return B1 @ B2
 
 
-def check_kernel(ctx, net):
+def check_kernel(ctx, net, light=False):
+    """light: the numpy oracle relations and the model's one-step kernel only (no model kernel powers / enumerated laws)"""
     import torch
     m = ctx.get_model()
     case = net.case(part="kernel")
@@ -546,6 +571,10 @@ def check_kernel(ctx, net):
         mE = m.call("b_eff_energy", *net.params, net.V)
     ctx.agree("log probability", np.log(prob), [-e for e in mE], case, rtol=RT, atol=RT)
     latent = net.nh + (net.na if net.purif else 0)
+    distinct_rows = len({tuple(np.round(r, 12)) for r in K}) == len(K) or nv == 0
+    if light:
+        ctx.count("kernel_checked_light")
+        return distinct_rows
     ks = [2] if 4 * nv + latent <= 17 else []          # cost of the model's recursive kpow: 2^((k+2) nv + latent)
     if 5 * nv + latent <= 15:
         ks.append(3)
@@ -563,7 +592,6 @@ def check_kernel(ctx, net):
             law = m.call(fn + "law", *net.params, nv, k)
             ctx.agree("model sampler law vs kernel power (k=%d)" % k, np.linalg.matrix_power(np.array(mK), k), law, case)
     ctx.count("kernel_checked")
-    distinct_rows = len({tuple(np.round(r, 12)) for r in K}) == len(K) or nv == 0
     return distinct_rows
 
 
@@ -864,7 +892,84 @@ def one_run(ctx, net, k, overwrite, v0, via, seed, form="2d", outer=None):
     if steps is not None and (good or other_dtype):
         model_replay(ctx, net, case, steps, start2, res2, k, overwrite, not other_dtype, after2,
                      max_rows=3 if outer is None else 2)
+    # a tensor of samples handed back by an EARLIER overwrite=False call belongs to the caller: it keeps its values when the sampler
+    # is used again (unless the caller himself passes it back with overwrite=True)
+    prev = getattr(net, "_earlier_result", None)
+    net._earlier_result = None
+    if prev is not None:
+        p_t, p_keep, p_what = prev
+        handed_back = overwrite and _same_storage(p_t, v0)
+        if not handed_back:
+            ctx.count("alias_probe:earlier result re-read after a later call")
+            ctx.require("samples returned by an earlier overwrite=False call keep their values when the sampler is called again "
+                        "(a returned tensor must not share memory with the library's later results)", bool(torch.equal(p_t, p_keep)),
+                        dict(case, earlier_call=p_what), {"earlier result when it was returned": tnp(p_keep).tolist(),
+                                                          "earlier result now": tnp(p_t).tolist(), "later call": what})
+    if not overwrite:
+        result_is_private(ctx, net, case, what, res, via,
+                          lambda: bool(torch.equal(v0, before)) and
+                          (outer is None or bool(np.array_equal(tnp(outer[0]), tnp(pool_before)))),
+                          lambda: {"start state before": start2.tolist(),
+                                   "start state now": (tnp(fresh_view(form, outer[0], M, net.nv)) if outer is not None and form in LAYOUTS
+                                                       else tnp(v0)).reshape(M, net.nv).tolist(),
+                                   "returned tensor is the caller's tensor object": res is v0,
+                                   "returned tensor starts at the caller's memory address": same})
+        if isinstance(res, torch.Tensor):
+            net._earlier_result = (res, res.detach().clone(), what)
     return res
+
+
+def _same_storage(a, b):
+    try:
+        return a.untyped_storage().data_ptr() == b.untyped_storage().data_ptr()
+    except Exception:                                   # noqa: BLE001 - older torch
+        return a.storage().data_ptr() == b.storage().data_ptr()
+
+
+def result_is_private(ctx, net, case, what, res, via, start_untouched, detail):
+    """(k) A call with overwrite=False hands back the chain states; the caller's start state "is left untouched unless
+    overwriting was requested" -- for THIS call and for whatever the caller does next with what he got back.  A single call
+    cannot show a result that still shares memory with the start state (k = 0: nothing was written; values, shape and law
+    are right at the moment of return).  So every overwrite=False run is followed by the two ordinary uses of a returned
+    tensor, after each of which the caller's start state (and, for a view, the whole of the caller's larger tensor) is
+    compared with its copy taken before the call:
+      1. the returned tensor is changed IN PLACE (2 added to every entry, then restored);
+      2. the chain is CONTINUED from the returned tensor with overwrite=True (overwriting was requested for the returned
+         tensor, never for the original start state) -- one more step through the same entry point.
+    `start_untouched()` -> bool reads the caller's memory afresh.  A result that cannot be written in place (it raises) is
+    counted, not reported: the statement does not promise writable results."""
+    import torch
+    if not isinstance(res, torch.Tensor):
+        return True
+    good = True
+    keep = res.detach().clone()
+    try:
+        res.add_(2)
+        edited = True
+    except Exception:                                   # noqa: BLE001 - e.g. a self-overlapping (expanded) result
+        ctx.count("alias_probe:result_not_writable_in_place")
+        return True
+    if edited:
+        ctx.count("alias_probe:in-place edit of the result")
+        good &= ctx.require(what + ": overwrite=False leaves the caller's start state untouched when the RETURNED tensor is "
+                            "afterwards changed in place (the result must not share memory with the start state)",
+                            start_untouched(), dict(case, followed_by="returned.add_(2)"), detail())
+        try:
+            res.copy_(keep)
+        except Exception:                               # noqa: BLE001
+            return good
+    rbm_call = (via == "gibbs_steps")
+    ok, _ = ctx.call(what + " then %s(1, <the returned tensor>, overwrite=True)" % ("gibbs_steps" if rbm_call else "sample"),
+                     dict(case, followed_by="chain continued from the returned tensor with overwrite=True"),
+                     (lambda: net.rbm.gibbs_steps(1, res, overwrite=True)) if rbm_call else
+                     (lambda: net.state.sample(1, initial_state=res, overwrite=True)))
+    if ok:
+        ctx.count("alias_probe:chain continued from the result with overwrite=True")
+        good &= ctx.require(what + ": overwrite=False leaves the caller's start state untouched when the chain is afterwards "
+                            "CONTINUED from the returned tensor with overwrite=True (overwriting was never requested for the "
+                            "original start state)", start_untouched(),
+                            dict(case, followed_by="chain continued from the returned tensor with overwrite=True"), detail())
+    return good
 
 
 # ---- start-state LAYOUTS: how a caller may hold the (chains..., nv) start state inside a larger tensor of his own.
@@ -977,8 +1082,9 @@ def probe_pending(ctx, net, form, rows, dtype, overwrite):
     return False
 
 
-def layout_runs(ctx, net, full):
-    """(c) for every start-state layout and dtype: content tie of one call on a handful of chains."""
+def layout_runs(ctx, net, full, k_fixed=None):
+    """(c) for every start-state layout and dtype: content tie of one call on a handful of chains (k = k_fixed, else drawn from
+    1..3 in the fixed first block -- which runs a separate k = 0 pass -- and from 0..3 in the random stream)."""
     import torch
     rng = ctx.rng
     names = [n for n in LAYOUTS if n != "contiguous"]
@@ -1000,7 +1106,7 @@ def layout_runs(ctx, net, full):
                 rows = np.repeat(rows[:1], M, axis=0)
             dtype = "float64" if (n % 3) else DTYPES[int(rng.integers(len(DTYPES)))]
             n += 1
-            k = int(rng.integers(1, 4))
+            k = int(rng.integers(1 if full else 0, 4)) if k_fixed is None else int(k_fixed)
             v0, pool, mask = make_start(name, rows, dtype)
             via = vias[n % 3]
             if name in PENDING and PENDING[name][1](overwrite) and not probe_pending(ctx, net, name, rows, dtype, overwrite):
@@ -1013,7 +1119,8 @@ def layout_runs(ctx, net, full):
             name = "contiguous" if (i + int(overwrite)) % 2 == 0 else ("col-block", "transposed", "row-stride")[i % 3]
             rows = net.V[rng.integers(len(net.V), size=4)]
             v0, pool, mask = make_start(name, rows, dtype)
-            one_run(ctx, net, int(rng.integers(1, 4)), overwrite, v0, vias[i % 3], ctx.torch_seed(), form=name, outer=(pool, mask))
+            k = int(rng.integers(1 if full else 0, 4)) if k_fixed is None else int(k_fixed)
+            one_run(ctx, net, k, overwrite, v0, vias[i % 3], ctx.torch_seed(), form=name, outer=(pool, mask))
 
 
 def check_sampler(ctx, net, ks=(0, 1, 2, 3), full=False):
@@ -1032,6 +1139,12 @@ def check_sampler(ctx, net, ks=(0, 1, 2, 3), full=False):
             if k in (1, 2):
                 k2 = int(rng.integers(1, 3))
                 one_run(ctx, net, k2, overwrite, r1, "sample", ctx.torch_seed())
+    # k = 0 without overwriting through the other entry points too, and on a single chain in the 1-D form (each followed by
+    # the in-place uses of the returned tensor, see result_is_private)
+    for via in ("gibbs_steps", "sample(num_samples ignored)"):
+        one_run(ctx, net, 0, False, torch.tensor(net.V[rng.integers(len(net.V), size=N)], dtype=torch.double), via, ctx.torch_seed())
+    one_run(ctx, net, 0, False, torch.tensor(net.V[int(rng.integers(len(net.V)))], dtype=torch.double),
+            ("sample", "gibbs_steps")[int(rng.integers(2))], ctx.torch_seed(), form="1d")
     # gibbs_steps called directly on the RBM, all start states at once
     v0 = torch.tensor(net.V, dtype=torch.double)
     one_run(ctx, net, 1, False, v0, "gibbs_steps", ctx.torch_seed())
@@ -1320,9 +1433,11 @@ def make_recording_observable():
             self.name = "first-unit"
             self.symbol = "r"
             self.seen = []
+            self.raw = []                                   # the tensors themselves (the harness edits them in place afterwards)
 
         def apply(self, nn_state, samples):
             self.seen.append(samples.detach().clone())
+            self.raw.append(samples)
             return samples[..., 0].to(dtype=__import__("torch").double)
     return Recording()
 
@@ -1336,10 +1451,12 @@ def check_observable_chains(ctx, net, full):
     S = len(net.V)
     reps = 2000 if full else 900
     names = ("col-block0", "transposed", "row-stride", "col-stride", "transposed-block", "col-block")
-    combos = [(n, ow) for n in names[:4] for ow in (False, True)] if full else \
-             [(str(rng.choice(names)), bool(rng.integers(2)))]
-    for name, overwrite in combos:
-        burn, steps = int(rng.integers(1, 3)), int(rng.integers(1, 3))
+    # burn_in = 0 (no step before the first evaluation: the user's chains themselves are evaluated, then advanced) is a fixed
+    # case of the first block and part of the random stream
+    combos = [(n, ow, None) for n in names[:4] for ow in (False, True)] + [("contiguous", False, 0), ("col-block", True, 0)] if full \
+        else [(str(rng.choice(names)), bool(rng.integers(2)), int(rng.integers(0, 3)))]
+    for name, overwrite, burn in combos:
+        burn, steps = int(rng.integers(1, 3)) if burn is None else burn, int(rng.integers(1, 3))
         rows = np.tile(net.V, (reps, 1))
         M = rows.shape[0]
         v0, pool, mask = make_start(name, rows)
@@ -1375,13 +1492,33 @@ def check_observable_chains(ctx, net, full):
         else:
             ctx.require("Observable.statistics(overwrite=False): the user's chains are left untouched",
                         bool(np.array_equal(buf, rows)), case, {"call": what})
+            try:                                            # the chain states handed to the observable are changed in place
+                for t in {id(t): t for t in obs.raw}.values():
+                    t.add_(2)
+                ctx.require("Observable.statistics(overwrite=False): the user's chains are left untouched when the tensors of samples "
+                            "handed to the observable are afterwards changed in place (they must not share memory with the user's chains)",
+                            bool(np.array_equal(tnp(pool), pool_before)), dict(case, followed_by="samples.add_(2)"), {"call": what})
+                ctx.count("alias_probe:in-place edit of the samples handed to an observable")
+            except Exception:                               # noqa: BLE001 - not writable in place: not demanded
+                ctx.count("alias_probe:result_not_writable_in_place")
         ctx.require(what + ": cells of the caller's larger tensor outside the chain view keep their values",
                     bool(np.array_equal(tnp(pool)[mask], pool_before[mask])), case)
-    # Observable.sample(k, initial_state=view, overwrite): content tie through the public sampler
-    name, overwrite = (str(rng.choice(names)), bool(rng.integers(2)))
-    rows = net.V[rng.integers(S, size=4)]
+    # Observable.sample(k, initial_state=view, overwrite): content tie through the public sampler; k = 0 included, fixed forms
+    # first in the fixed block
+    if full:
+        for name, overwrite, k in (("contiguous", False, 0), ("col-block0", False, 0), ("transposed", True, 0), ("row-stride", False, 2)):
+            observable_sample_run(ctx, net, name, overwrite, k)
+    observable_sample_run(ctx, net, str(rng.choice(names + ("contiguous",))), bool(rng.integers(2)), int(rng.integers(0, 4)))
+
+
+def observable_sample_run(ctx, net, name, overwrite, k):
+    """Observable.sample(nn_state, k, initial_state=<view>, overwrite): the samples the observable is applied to are the chain
+    states after k exact steps from the user's start states (content tie); overwrite=True leaves them in the user's view;
+    overwrite=False leaves the user's chains untouched -- also after the tensor of samples the observable was HANDED is
+    changed in place (it must not share memory with the user's chains)."""
+    import torch
+    rows = net.V[ctx.rng.integers(len(net.V), size=4)]
     v0, pool, mask = make_start(name, rows)
-    k = int(rng.integers(1, 4))
     seed = ctx.torch_seed()
     case = net.case(part="observable chains", via="Observable.sample", start_form=name, overwrite=overwrite, k=k, torch_seed=seed,
                     initial_state=rows.tolist())
@@ -1389,20 +1526,36 @@ def check_observable_chains(ctx, net, full):
         obs = make_recording_observable()
     except Exception:                                       # noqa: BLE001
         return
+    pool_before = tnp(pool)
     torch.manual_seed(seed)
     with BernoulliSpy() as spy:
         ok, _ = ctx.call("Observable.sample(k, initial_state=<view>)", case,
                          lambda: obs.sample(net.state, k, initial_state=v0, overwrite=overwrite))
+    ctx.count("observable_sample:k=%d:ow=%s" % (k, overwrite))
     if ok and len(obs.seen) == 1 and tuple(obs.seen[0].shape) == (4, net.nv) and is01(tnp(obs.seen[0])):
         res2 = tnp(obs.seen[0])
         what = "Observable.sample(k=%d, overwrite=%s)" % (k, overwrite)
         steps_ = verify_run(ctx, net, case, spy.calls, rows, res2, k, what)
-        buf = tnp(v0).reshape(4, net.nv)
+        buf = tnp(fresh_view(name, pool, 4, net.nv)).reshape(4, net.nv)
         if overwrite and steps_ is not None:
             ctx.require("overwrite=True leaves the final chain state (visible draw of step k) in the caller's tensor",
-                        bool(np.array_equal(buf, steps_[-1]["v"])), case, {"call": what})
+                        bool(np.array_equal(buf, steps_[-1]["v"] if k > 0 else rows)), case, {"call": what})
         if not overwrite:
             ctx.require(what + ": overwrite=False leaves the caller's start state untouched", bool(np.array_equal(buf, rows)), case)
+            raw = obs.raw[0]
+            try:
+                raw.add_(2)
+                edited = True
+            except Exception:                               # noqa: BLE001 - a result that cannot be written in place: not demanded
+                edited = False
+                ctx.count("alias_probe:result_not_writable_in_place")
+            if edited:
+                ctx.count("alias_probe:in-place edit of the samples handed to an observable")
+                ctx.require(what + ": overwrite=False leaves the caller's start state untouched when the tensor of samples handed "
+                            "to the observable is afterwards changed in place (it must not share memory with the start state)",
+                            bool(np.array_equal(tnp(pool), pool_before)), dict(case, followed_by="samples.add_(2)"),
+                            {"start state before": rows.tolist(),
+                             "start state now": tnp(fresh_view(name, pool, 4, net.nv)).reshape(4, net.nv).tolist()})
         if steps_ is not None:
             ctx.traces += 1
 
@@ -1425,6 +1578,8 @@ def check_history(ctx, net, hows):
         one_run(ctx, net, 1, False, torch.tensor(rows, dtype=torch.double), "gibbs_steps", ctx.torch_seed())
         one_run(ctx, net, 2, True, torch.tensor(rows, dtype=torch.double), "sample", ctx.torch_seed())
         one_run(ctx, net, 1, False, torch.tensor(net.V, dtype=torch.double), "sample", ctx.torch_seed())
+        one_run(ctx, net, 0, False, torch.tensor(rows, dtype=torch.double), ("sample", "gibbs_steps")[int(ctx.rng.integers(2))],
+                ctx.torch_seed())
         if getattr(net, "unobserved", False):
             check_statistical(ctx, net)
 
@@ -1673,7 +1828,10 @@ def float32_checks(ctx, net):
     runs = ((1, False, "sample", "float64", "contiguous"), (2, True, "sample", "float64", "contiguous"),
             (3, False, "gibbs_steps", "float32", "contiguous"), (2, True, "gibbs_steps", "float32", "contiguous"),
             (1, True, "sample(num_samples ignored)", "int64", "col-block"), (33, False, "sample", "float64", "row-stride"),
-            (0, True, "sample", "float32", "transposed"))
+            (0, True, "sample", "float32", "transposed"),
+            # k = 0 without overwriting: a float32 start state already has the dtype of this network (.to(weights) does not copy)
+            (0, False, "gibbs_steps", "float32", "contiguous"), (0, False, "sample", "float32", "contiguous"),
+            (0, False, "sample(num_samples ignored)", "float64", "col-block"))
     for k, overwrite, via, dtype, form in runs:
         rows = net.V[ctx.rng.integers(len(net.V), size=4)]
         v0, pool, mask = make_start(form, rows, dtype)
@@ -1704,6 +1862,52 @@ def float32_first(ctx):
         ctx.case(dict(case, p00=float(net.params[0][0, 0]), part="float32 network"), nontrivial=True)
 
 
+def zero_step_first(ctx, net):
+    """k = 0 (kernel^0 = identity: the start state comes back) on dense float64 start states -- the ordinary case, in which
+    nothing forces the library to copy -- through every entry point, 2-D / 1-D / 3-D / one chain, overwrite off and on; each
+    overwrite=False call is followed by the in-place uses of the returned tensor (result_is_private).  Then the same for
+    k = 1 and 2 (a degenerate call is a special case of the ordinary one, not a separate path, as far as the caller can tell)."""
+    import torch
+    rng = ctx.rng
+    vias = ("sample", "gibbs_steps", "sample(num_samples ignored)")
+    for k in (0, 1, 2):
+        for j, (form, M) in enumerate((("contiguous", 4), ("contiguous", 1), ("1d", 1), ("3d", 4))):
+            for overwrite in (False, True):
+                for via in (vias if k == 0 else (vias[(j + int(overwrite)) % 3],)):
+                    rows = net.V[rng.integers(len(net.V), size=M)]
+                    v0, pool, mask = make_start(form, rows, "float64")
+                    one_run(ctx, net, k, overwrite, v0, via, ctx.torch_seed(), form=form, outer=(pool, mask))
+                    ctx.count("zero_step_first:k=%d" % k)
+
+
+def arch_sweep(ctx):
+    """EVERY architecture of the quantifier (nv, nh in 1..4; na in 1..3), fixed block of the quick tier too: the 16 binary shapes
+    for the positive and for the complex state, the 48 purification shapes -- every parameter tensor of every network drawn at
+    random (the phase network's too), conditionals and single-layer samplers against the brute-force tables and the model,
+    detailed balance / invariance with the reported distribution, one k = 0 call without overwriting followed by the in-place
+    uses of its result, and one k >= 1 call with overwriting.  (The thorough tier runs the full set of checks on each.)"""
+    import torch
+    rng = ctx.rng
+    archs = [(kind, nv, nh, 0) for nv in range(1, 5) for nh in range(1, 5) for kind in ("positive", "complex")] + \
+            [("density", nv, nh, na) for nv in range(1, 5) for nh in range(1, 5) for na in range(1, 4)]
+    vias = ("sample", "gibbs_steps", "sample(num_samples ignored)")
+    for i, (kind, nv, nh, na) in enumerate(archs):
+        ctx.torch_seed()
+        net = draw_net(ctx, kind, nv, nh, na)
+        if np.max(net.log_marg_v) > 600 or not np.all(np.isfinite(net.logJ)):
+            ctx.count("skipped_overflow")
+            continue
+        ctx.count("arch_sweep:" + kind)
+        check_conditionals(ctx, net)
+        distinct = bool(check_kernel(ctx, net, light=True)) if hasattr(net, "impl_conds") else False
+        rows = net.V[rng.integers(len(net.V), size=2)]
+        one_run(ctx, net, 0, False, torch.tensor(rows, dtype=torch.double), vias[i % 3], ctx.torch_seed())
+        one_run(ctx, net, int(rng.integers(1, 4)), True, torch.tensor(rows, dtype=torch.double), vias[(i + 1) % 3], ctx.torch_seed())
+        biases = net.params[2:] if net.purif else net.params[1:]
+        ctx.case({"state": kind, "nv": nv, "nh": nh, "na": na, "p00": float(net.params[0][0, 0]), "part": "architecture sweep"},
+                 nontrivial=distinct and all(bool(np.all(p != 0)) for p in biases))
+
+
 def layouts_first(ctx):
     """Fixed cases that run before everything else: every start-state layout and dtype, on well-mixing nets of every state
     type -- content tie on a handful of chains, then the law tests (sample / overwrite buffer / continued chains /
@@ -1713,6 +1917,8 @@ def layouts_first(ctx):
         net = moderate_net(ctx, kind, nv, nh, na)
         ctx.count("layouts_first:" + kind)
         check_layer_samplers(ctx, net)
+        zero_step_first(ctx, net)
+        layout_runs(ctx, net, full=True, k_fixed=0)
         layout_runs(ctx, net, full=True)
         check_layout_law(ctx, net, full=True)
         check_observable_chains(ctx, net, full=True)
@@ -1726,7 +1932,7 @@ def layouts_first(ctx):
 
 def run(ctx):
     walls = ctx.extra.setdefault("fixed_first_wall_s", {})
-    for fn in (layouts_first, long_chains_first, float32_first):
+    for fn in (layouts_first, long_chains_first, float32_first, arch_sweep):
         t0 = time.time()
         fn(ctx)
         walls[fn.__name__] = round(walls.get(fn.__name__, 0.0) + time.time() - t0, 2)
